@@ -77,6 +77,8 @@ def real_lib():
 # ------------------------------------------------------------------------------------ Env
 
 class Env:
+    NonFinite = core.NonFinite
+
     def __init__(self, symbolic, impl, lib, values=None, rng=None, rtol=1e-7):
         self.symbolic = symbolic
         self.impl = impl                    # 'model' | 'real'
@@ -448,6 +450,44 @@ class Env:
                 return R(Fr(float(v))) if self.impl == 'model' else float(v)
         raise KeyError(name)
 
+    def mark(self):
+        """position in the definedness log (model) / warning log (real), for check_defined."""
+        if self.impl == 'model':
+            return len(ctx().defs)
+        return len(getattr(self, '_live', []) or [])
+
+    def check_defined(self, name, outputs, since=0):
+        """No division by zero / log of a non-positive value / out-of-range index is reachable in the library code run
+        since `since`, and the outputs are finite.  Symbolically: every recorded definedness side condition is implied by
+        the path condition alone.  On the real library: outputs finite and no numpy RuntimeWarning."""
+        import numpy
+        if outputs is None:
+            self.check(name, False)
+            return
+        if self.symbolic:
+            defs = ctx().defs[since:]
+            cond = SB(z3.And(*defs)) if defs else True
+            self.check(name, cond, _no_defs=True)
+            return
+        if self.impl == 'model':
+            fin = True
+            for o in outputs:
+                for v in self.items(o):
+                    if is_symbolic(v):
+                        fin = False
+            self.check(name, fin)
+            return
+        fin = True
+        for o in outputs:
+            a = numpy.asarray(o)
+            if a.dtype.kind in 'fc' and not numpy.isfinite(a).all():
+                fin = False
+        live = getattr(self, '_live', []) or []
+        for w in live[since:]:
+            if issubclass(w.category, RuntimeWarning):
+                fin = False
+        self.check(name, fin)
+
     def events(self, kind=None):
         """event log of the current run (model impl) or the recorded warnings (real impl)."""
         if self.impl == 'model':
@@ -746,9 +786,10 @@ def run_symbolic(scen, cfg, lib, limits=None, known=None, prop='?', cfg_name='?'
                 return
             extra = []
             rounds = 0
+            nodefs = bool(info.pop('_no_defs', False))
             while True:
                 rounds += 1
-                r, m, dt, s = prove(c.facts() + extra, goal, q_timeout)
+                r, m, dt, s = prove((c.pc + c.axioms if nodefs else c.facts()) + extra, goal, q_timeout)
                 res['solver_s'] += dt
                 res['queries'] += 1
                 if r == 'unsat':
